@@ -381,6 +381,59 @@ def minimal_backend(inner: Any) -> Any:
     return obj
 
 
+class os_failing:
+    """with os_failing(fn, errno_name, target): ...  -- BELOW the backend interface: while the block runs, the named family of
+    operating-system calls fails with OSError(errno) for the path `target` itself (what a directory that can be listed but
+    not searched, a stale NFS handle or a failing disk does to ONE object; every other path is served normally).
+    fn: "stat" (os.stat / os.lstat: existence, type, size, mtime), "scandir" (os.scandir / os.listdir), "open" (open / os.open)."""
+
+    def __init__(self, fn: str, errno_name: str, target: str):
+        import errno as _errno
+        self.fn, self.code, self.target = fn, getattr(_errno, errno_name), os.path.realpath(target)
+
+    def _hit(self, p: Any) -> bool:
+        try:
+            q = os.fspath(p)
+        except TypeError:
+            return False
+        if isinstance(q, bytes):
+            q = os.fsdecode(q)
+        return os.path.abspath(q) == self.target or os.path.realpath(q) == self.target
+
+    def __enter__(self) -> "os_failing":
+        import builtins
+        names = {"stat": [(os, "stat"), (os, "lstat")], "scandir": [(os, "scandir"), (os, "listdir")],
+                 "open": [(builtins, "open"), (io, "open"), (os, "open")]}[self.fn]
+        self._saved = [(m, n, getattr(m, n)) for m, n in names]
+        probing = [False]
+        for m, n, real in self._saved:
+            def patched(p: Any = ".", *a: Any, _real: Any = real, **kw: Any) -> Any:
+                if not probing[0]:
+                    probing[0] = True          # _hit itself stats (realpath): not to be faulted
+                    try:
+                        hit = self._hit(p)
+                    finally:
+                        probing[0] = False
+                    if hit:
+                        raise OSError(self.code, os.strerror(self.code), os.fspath(p))
+                return _real(p, *a, **kw)
+            setattr(m, n, patched)
+        return self
+
+    def __exit__(self, *a: Any) -> None:
+        for m, n, real in self._saved:
+            setattr(m, n, real)
+
+
+def backend_root(inner: Any) -> Optional[str]:
+    """The directory a local backend (or a third-party backend delegating to one) stores the table in; None: not a directory."""
+    for o in (inner, getattr(inner, "_impl", None)):
+        bp = getattr(o, "base_path", None)
+        if isinstance(bp, str):
+            return bp
+    return None
+
+
 class TracingStorage:
     """The real backend with every storage operation recorded as (op, path) and faults injected.
 
@@ -400,6 +453,7 @@ class TracingStorage:
         self._seen: Dict[Tuple[str, str], int] = {}
         self._depth = threading.local()
         self.mark: Optional[Tuple[int, int]] = None     # trace indices spanned by the first metadata refresh()
+        self._root = backend_root(inner)
         self._inner = self._instrument(inner)
 
     def _instrument(self, inner: Any) -> Any:
@@ -444,7 +498,7 @@ class TracingStorage:
             if f["op"] == code and f["key"] == path and f["occ"] in (occ, "*"):     # "*": the call fails every time
                 kind, hit = f["kind"], f
                 break
-        self.trace.append((code, path, (hit.get("code") or FAULT_CODE.get(kind, 0)) if kind else 0))
+        self.trace.append((code, path, (hit.get("code") or FAULT_CODE.get(kind, 4 if kind.startswith("os:") else 0)) if kind else 0))
         if kind == "stream":
             # the stream misbehaves part-way: `code` says what that amounts to for the model (see c07.stream_faults)
             real = attr(*a, **kw)
@@ -455,6 +509,13 @@ class TracingStorage:
             return FaultyStream(data, hit["mode"], hit["k"])
         if kind in RAISING:
             raise_fault(kind, name, path)
+        if kind is not None and kind.startswith("os:"):
+            # below the interface: the backend's own operation runs while the OS refuses the object (kind = "os:<fn>:<ERRNO>")
+            _os, fn, err = kind.split(":")
+            if self._root is None:
+                return attr(*a, **kw)
+            with os_failing(fn, err, os.path.join(self._root, str(path).lstrip("/"))):
+                return attr(*a, **kw)
         if kind == "bad":
             if code == "E":
                 return False
